@@ -17,6 +17,10 @@ abbrev final (threads : List (List Op)) (sched : List ThreadId) : St := (run (sy
 
 theorem anyPurge (threads : List (List Op)) : ∀ ops ∈ threads, ∀ op ∈ ops, op.isPurge = true → true = true :=
   fun _ _ _ _ _ => rfl
+theorem anyOld (threads : List (List Op)) : ∀ ops ∈ threads, ∀ op ∈ ops, op.isOld = true → true = true :=
+  fun _ _ _ _ _ => rfl
+theorem anyNew (threads : List (List Op)) : ∀ ops ∈ threads, ∀ op ∈ ops, op.isNew = true → true = true :=
+  fun _ _ _ _ _ => rfl
 
 /-! ## Linearisation (generic, `Conc/Sched`) -/
 
@@ -37,7 +41,7 @@ theorem linearisation_order (threads : List (List Op)) (sched : List ThreadId) (
 theorem sn_consecutive_run (threads : List (List Op)) (sched : List ThreadId) (i : Nat)
     (hi : i < (final threads sched).snLog.length) :
     (final threads sched).snLog[i]? = some (((final threads sched).snLog.length - i) % 65535) :=
-  (router_inv true SnInv threads (anyPurge threads) (by simp [SnInv, M]) (SnInv_blk true) sched).2 i hi
+  (router_inv true true true SnInv threads (anyPurge threads) (anyOld threads) (anyNew threads) (by simp [SnInv, M]) (SnInv_blk true true true) sched).2 i hi
 
 /-- any two allocations fewer than 65535 allocations apart returned different sequence numbers -/
 theorem sn_distinct (threads : List (List Op)) (sched : List ThreadId) (i j : Nat) (hij : i < j)
@@ -65,7 +69,7 @@ example : (final [[.gbc 1, .gbc 2], [.gbc 3]] [0, 0, 0, 1, 1, 1, 0, 0, 0, 0, 0, 
 cancelled one never -/
 theorem cbf_at_most_once (threads : List (List Op)) (sched : List ThreadId) (k : Nat) :
     cbfPkts (final threads sched) k + (final threads sched).cbfCan k ≤ (final threads sched).cbfIns k := by
-  have h := router_inv true CbfInv threads (anyPurge threads) (by intro k; simp [cbfPkts]) (CbfInv_blk true) sched k
+  have h := router_inv true true true CbfInv threads (anyPurge threads) (anyOld threads) (anyNew threads) (by intro k; simp [cbfPkts]) (CbfInv_blk true true true) sched k
   obtain ⟨h1, h2, h3⟩ := h
   simp only [final] at *
   split at h1 <;> omega
@@ -73,7 +77,7 @@ theorem cbf_at_most_once (threads : List (List Op)) (sched : List ThreadId) (k :
 /-- every transmission was committed by an expiry block that found the key in the buffer -/
 theorem cbf_sends_le_commits (threads : List (List Op)) (sched : List ThreadId) (k : Nat) :
     cbfPkts (final threads sched) k ≤ (final threads sched).cbfCom k := by
-  have h := router_inv true CbfInv threads (anyPurge threads) (by intro k; simp [cbfPkts]) (CbfInv_blk true) sched k
+  have h := router_inv true true true CbfInv threads (anyPurge threads) (anyOld threads) (anyNew threads) (by intro k; simp [cbfPkts]) (CbfInv_blk true true true) sched k
   obtain ⟨_, h2, h3⟩ := h
   simp only [final] at *
   omega
@@ -98,18 +102,56 @@ example : cbfPkts (final [[.cbfArrive 1 7], [.cbfFire 3 7 1]] [0, 0, 0, 0, 0, 0,
 /-- every emitted packet carries a PV that was the ego PV at some instant (installed by `egoSwap`, or the initial one) -/
 theorem pv_was_ego (threads : List (List Op)) (sched : List ThreadId) (p : Pkt)
     (hp : p ∈ (final threads sched).sent) : p.pv ∈ (final threads sched).egoHist :=
-  (router_inv true PvInv threads (anyPurge threads) (by simp [PvInv]) (PvInv_blk true) sched).2.2.2 p hp
+  (router_inv true true true PvInv threads (anyPurge threads) (anyOld threads) (anyNew threads) (by simp [PvInv]) (PvInv_blk true true true) sched).2.2.2 p hp
 
 example : ((final [[.ego 5], [.shb 1]] [1, 0, 0, 1, 0]).sent.map (·.pv)) = [0] := by decide +kernel
 
 /-! ## Location service -/
 
 def noPurge (threads : List (List Op)) : Prop := ∀ ops ∈ threads, ∀ op ∈ ops, op.isPurge = false
+/-- every GeoUnicast request is handled by the code with the LS-order commit (a lookup in progress is recognised by
+its retransmit counter even when the placeholder LocTE was purged) -/
+def allFixed (threads : List (List Op)) : Prop := ∀ ops ∈ threads, ∀ op ∈ ops, op.isOld = false
+def allOld (threads : List (List Op)) : Prop := ∀ ops ∈ threads, ∀ op ∈ ops, op.isNew = false
 
-/-- **Exactly once** (LocT placeholder entries are not purged during a lookup – fix C15-ls-placeholder-purge):
-at every instant each buffered request is, counted with multiplicity, in exactly one place: still buffered, popped by
-a reply block and about to be sent by that thread, sent, or dropped by the give-up block. -/
-theorem ls_exactly_once (threads : List (List Op)) (hnp : noPurge threads) (sched : List ThreadId) (d r : Nat) :
+/-- conservation (both code variants, with or without LocT purges): a buffered request is, counted with multiplicity,
+in exactly one place – still buffered, popped by a reply block and about to be sent by that thread, sent, dropped by
+the give-up block, or lost (overwritten by a new registration) -/
+theorem ls_conservation (threads : List (List Op)) (sched : List ThreadId) (d r : Nat) :
+    let s := final threads sched
+    (s.lsQueued d).count r =
+      (s.lsBuf d).count r + (s.lsFlight d).count r + (s.lsSent d).count r + (s.lsDropped d).count r + (s.lsLost d).count r :=
+  router_inv true true true LsInv threads (anyPurge threads) (anyOld threads) (anyNew threads) (by intro d r; simp) (LsInv_blk true true true) sched d r
+
+/-- **Exactly once** for the code as it is now, under ANY interleaving with LocT purges (received frames), replies and
+timer expiries: nothing is ever lost, hence each buffered request is sent exactly once after a reply block popped it,
+or dropped by the give-up block, or still waiting – never both, never twice. -/
+theorem ls_exactly_once (threads : List (List Op)) (hfx : allFixed threads) (sched : List ThreadId) (d r : Nat) :
+    let s := final threads sched
+    (s.lsQueued d).count r =
+      (s.lsBuf d).count r + (s.lsFlight d).count r + (s.lsSent d).count r + (s.lsDropped d).count r := by
+  have hq : ∀ ops ∈ threads, ∀ op ∈ ops, op.isOld = true → false = true := by
+    intro ops ho op hop h
+    rw [hfx ops ho op hop] at h
+    cases h
+  have h1 := ls_conservation threads sched d r
+  have h2 := (router_inv true false true LsNoLossB threads (anyPurge threads) hq (anyNew threads) (by intro d; simp) (LsNoLossB_blk true) sched d).2.2.2
+  simp only [final] at *
+  rw [h2] at h1
+  simpa using h1
+
+/-- never both sent and dropped, never sent twice: for a request buffered once -/
+theorem ls_never_both_never_twice (threads : List (List Op)) (hfx : allFixed threads) (sched : List ThreadId) (d r : Nat)
+    (hq : ((final threads sched).lsQueued d).count r = 1) :
+    ((final threads sched).lsSent d).count r + ((final threads sched).lsDropped d).count r ≤ 1 := by
+  have := ls_exactly_once threads hfx sched d r
+  simp only at this
+  omega
+
+/-- the code before the LS-order commit (known finding C15-KF1): exactly-once outside the known region, i.e. as long
+as no received frame purges a placeholder LocTE during the lookup … -/
+theorem ls_exactly_once_partial (threads : List (List Op)) (hnp : noPurge threads) (hold : allOld threads)
+    (sched : List ThreadId) (d r : Nat) :
     let s := final threads sched
     (s.lsQueued d).count r =
       (s.lsBuf d).count r + (s.lsFlight d).count r + (s.lsSent d).count r + (s.lsDropped d).count r := by
@@ -117,41 +159,32 @@ theorem ls_exactly_once (threads : List (List Op)) (hnp : noPurge threads) (sche
     intro ops ho op hop h
     rw [hnp ops ho op hop] at h
     cases h
-  have h1 := router_inv false LsInv threads hp (by intro d r; simp) (LsInv_blk false) sched d r
-  have h2 := (router_inv false LsNoLoss threads hp (by intro d; simp) LsNoLoss_blk sched d).2
-  simp only
+  have hn : ∀ ops ∈ threads, ∀ op ∈ ops, op.isNew = true → false = true := by
+    intro ops ho op hop h
+    rw [hold ops ho op hop] at h
+    cases h
+  have h1 := ls_conservation threads sched d r
+  have h2 := (router_inv false true false LsNoLossA threads hp (anyOld threads) hn (by intro d; simp) LsNoLossA_blk sched d).2
+  simp only [final] at *
   rw [h2] at h1
   simpa using h1
 
-/-- never both sent and dropped, never sent twice: for a request buffered once -/
-theorem ls_never_both_never_twice (threads : List (List Op)) (hnp : noPurge threads) (sched : List ThreadId) (d r : Nat)
-    (hq : ((final threads sched).lsQueued d).count r = 1) :
-    ((final threads sched).lsSent d).count r + ((final threads sched).lsDropped d).count r ≤ 1 := by
-  have := ls_exactly_once threads hnp sched d r
-  simp only at this
-  omega
-
-/-- the code as it was (a received frame purges the placeholder entry): conservation still holds when the
-overwritten requests are counted as lost … -/
-theorem ls_exactly_once_partial (threads : List (List Op)) (sched : List ThreadId) (d r : Nat) :
-    let s := final threads sched
-    (s.lsQueued d).count r =
-      (s.lsBuf d).count r + (s.lsFlight d).count r + (s.lsSent d).count r + (s.lsDropped d).count r + (s.lsLost d).count r :=
-  router_inv true LsInv threads (anyPurge threads) (by intro d r; simp) (LsInv_blk true) sched d r
-
-/-- … and a request IS lost, sequentially: request 1 to destination 9, purge of the placeholder, request 2. -/
+/-- … and inside it a request IS lost, sequentially: request 1 to destination 9, purge of the placeholder, request 2. -/
 theorem ls_exactly_once_witness :
-    (final [[.guc 1 1 9, .purge 9, .guc 2 2 9]] (List.replicate 80 0)).lsLost 9 = [1] := by decide +kernel
+    (final [[.guc 1 1 9 false, .purge 9, .guc 2 2 9 false]] (List.replicate 80 0)).lsLost 9 = [1] := by decide +kernel
+
+/-- the same history on the code as it is now loses nothing -/
+example : (final [[.guc 1 1 9 true, .purge 9, .guc 2 2 9 true]] (List.replicate 80 0)).lsBuf 9 = [1, 2] := by decide +kernel
 
 /-- the window between sending the LS request and storing its timer: a reply handled in that window leaves a live,
 uncancelled retransmit timer behind (spurious retransmissions; no request is lost – `ls_exactly_once`). -/
 theorem ls_stale_timer_witness :
-    let s := final [[.guc 1 1 9], [.lsReply 2 9 1]]
+    let s := final [[.guc 1 1 9 true], [.lsReply 2 9 1]]
       (List.replicate 22 0 ++ List.replicate 30 1 ++ List.replicate 10 0)
     s.lsTimer 9 = some 1 ∧ s.tStarted 1 = true ∧ s.tCancelled 1 = false ∧ s.lsSent 9 = [1] ∧ s.pending 9 = false := by
   decide +kernel
 
-example : ((final [[.guc 1 1 9], [.lsReply 2 9 1]] (List.replicate 40 0 ++ List.replicate 30 1)).lsSent 9) = [1] := by
+example : ((final [[.guc 1 1 9 true], [.lsReply 2 9 1]] (List.replicate 40 0 ++ List.replicate 30 1)).lsSent 9) = [1] := by
   decide +kernel
 
 /-! ## Deadlock freedom, exceptions -/
@@ -169,7 +202,7 @@ theorem no_deadlock (threads : List (List Op)) (sched : List ThreadId) : ¬ Dead
 
 /-- no block raises (`del` only of a present key) -/
 theorem no_thread_fails (threads : List (List Op)) (sched : List ThreadId) : (final threads sched).err = 0 :=
-  router_inv true ErrInv threads (anyPurge threads) rfl (ErrInv_blk true) sched
+  router_inv true true true ErrInv threads (anyPurge threads) (anyOld threads) (anyNew threads) rfl (ErrInv_blk true true true) sched
 
 /-! ## Tie to the source (re-exported obligations; see `RouterConc` for the individual block lists) -/
 
@@ -185,12 +218,10 @@ theorem source_lock_map :
     Generated.Locks.allUnder .LocationTableEntry_dpl_deque .LocationTableEntry_dpl_lock = true := guarded
 
 theorem source_blocks :
-    Generated.Locks.blocks .Router_get_sequence_number =
-      [([.Router_sequence_number_lock], [(.Router_sequence_number, .rmw), (.Router_sequence_number, .read)])] ∧
-    Generated.Locks.blocks .Router__cbf_timeout =
-      [([.Router__cbf_lock], [(.Router__cbf_buffer, .read), (.Router__cbf_buffer, .write)])] ∧
-    Generated.Locks.blocks .Router_refresh_ego_position_vector =
-      [([.Router_ego_position_vector_lock], [(.Router_ego_position_vector, .rmw)])] :=
+    Generated.Locks.shape .Router_get_sequence_number = [([.Router_sequence_number_lock], [.Router_sequence_number])] ∧
+    Generated.Locks.shape .Router__cbf_timeout = [([.Router__cbf_lock], [.Router__cbf_buffer])] ∧
+    Generated.Locks.shape .Router_refresh_ego_position_vector =
+      [([.Router_ego_position_vector_lock], [.Router_ego_position_vector])] :=
   ⟨blocks_get_sequence_number, blocks_cbf_timeout, blocks_refresh_ego⟩
 
 end Props.C15
